@@ -553,10 +553,11 @@ class Projection:
         ddcurve = dcurve.derivate()
         usample = list(usample)
         zero, one = Fraction(0), Fraction(1)
-        for _ in range(10):  # Number of iterations
+        for _ in range(40):  # Maximum number of iterations
             curvals = tuple(cval - point for cval in curve(usample))
             dcurvals = dcurve(usample)
             ddcurvals = ddcurve(usample)
+            converged = True
             for k, uk in enumerate(usample):
                 curval = curvals[k]
                 deriva = dcurvals[k]
@@ -567,9 +568,12 @@ class Projection:
                 newu = uk - fuk / dfuk
                 if isinstance(newu, Fraction):
                     newu = newu.limit_denominator(Intersection.max_denom)
-                usample[k] = min(one, max(newu, zero))
+                newu = min(one, max(newu, zero))
+                if abs(newu - uk) > 1e-14:
+                    converged = False
+                usample[k] = newu
             usample = list(set(usample))
-            if len(usample) == 1:
+            if converged or len(usample) == 1:
                 break
         return usample
 
